@@ -482,6 +482,49 @@ def in_flight_kinds(case, frame, req):
     return kinds
 
 
+def spy_generated_secrets(server, case):
+    """Pass-through wrappers around the server's key generation / derivation: what they return is
+    secret from the moment it exists, also when the request then fails and nothing is stored (the
+    database harvest would never see it)."""
+    ce = getattr(server.engine, "_cryptography_engine", None)
+    if ce is None:
+        return
+
+    def wrap(name, kinds):
+        real = getattr(ce, name, None)
+        if real is None:
+            return
+
+        def spy(*a, **kw):
+            out = real(*a, **kw)
+            try:
+                vals = []
+                if isinstance(out, dict) and "value" in out:
+                    vals.append((kinds[0], out["value"]))
+                elif isinstance(out, (tuple, list)):
+                    for k, part in zip(kinds, out):
+                        if isinstance(part, dict) and "value" in part:
+                            vals.append((k, part["value"]))
+                elif isinstance(out, (bytes, bytearray)):
+                    vals.append((kinds[0], bytes(out)))
+                for k, val in vals:
+                    if k is None or not isinstance(val, (bytes, bytearray)):
+                        continue
+                    if k == "generated-private-key":
+                        for part in private_parts(bytes(val)):
+                            case.reg.add(k, part, window=16)
+                    else:
+                        case.reg.add(k, bytes(val))
+            except Exception:
+                pass
+            return out
+        setattr(ce, name, spy)
+
+    wrap("create_symmetric_key", ["generated-symmetric-key"])
+    wrap("create_asymmetric_key_pair", [None, "generated-private-key"])   # (public, private)
+    wrap("derive_key", ["derived-key"])
+
+
 # ----------------------------------------------------------------------------- server mode
 def run_server(spec):
     cap = S.install()
@@ -495,6 +538,7 @@ def run_server(spec):
         kmip_logger.setLevel(logging.DEBUG)
     try:
         case.harvest_db(server)
+        spy_generated_secrets(server, case)
         for step in spec.get("steps", []):
             if not isinstance(step, dict) or "req" not in step:
                 continue
